@@ -10,6 +10,7 @@ items=[
  ("C07_full_adder","AdderProof.v","okm_full_adder","Full adder truth table."),
  ("C07_adder_ripple","AdderProof.v","okm_ripple_adder","Ripple-carry NewAdder: every operand width (max >= 1), every result width >= 1, all values: z = (x + y) mod 2^len(z), in every consistent valuation."),
  ("C07_adder_ripple_eval","StructArith.v","ripple_adder_eval","EVALUATED ripple adder in the harness wire layout, every width, every initial assignment e0: gate list single-assignment and defined-before-use, result = (x + y) mod 2^zw."),
+ ("C07_adder_same_operand","AdderProof.v","okm_new_adder_same_operand","Aliased operands: every okm theorem quantifies over ARBITRARY lists of wire ids, also repeated or overlapping ones (x = y, x a prefix/permutation of y); instance: NewAdder(t, t, z) = 2t mod 2^len(z).  (The compiler's pass pipeline on aliased operands is tied by the harness: keys c07:pipeline:aliased-operands:...)"),
  ("C07_adder_kogge_stone","KsProof.v","okm_ks_adder","Kogge-Stone adder: every width."),
  ("C07_adder_kogge_stone_eval","StructKs.v","ks_adder_eval","EVALUATED Kogge-Stone adder, every width."),
  ("C07_adder","HammingProof.v","okm_new_adder","NewAdder as dispatched on the target, every width."),
@@ -131,8 +132,13 @@ hdrtxt='''(* Props/C07.v — property C07: arithmetic and logic circuit builders
      emitted gate list is single-assignment (wfc_b) and defined-before-use (dbu),
      and evaluating it gate by gate from ANY initial assignment e0 (eval_rev)
      yields the exact function of the operand values valN e0 x, valN e0 y.
+   The okm theorems hold for arbitrary, also repeated or overlapping, operand wire
+   ids (aliased operands: x = y, x a prefix / suffix / permutation of y; see
+   C07_adder_same_operand); the *_eval theorems use disjoint operand ranges.
    The Gallina builders are tied to the Go builders gate for gate by the
-   correspondence check (run_c07). *)
+   correspondence check (run_c07); the compiler's pass pipeline (ConstPropagate,
+   ShortCircuitXORZero, Prune, Compile), also on aliased operands of every
+   source kind, is tied by the harness oracle only. *)
 From Coq Require Import NArith ZArith List Bool Arith.
 From Mpc Require Import Gen.Consts Gen.Thresholds Builders.Emit Builders.EmitProof Builders.StructProof
   Builders.Adder Builders.Sub Builders.Mux Builders.Cmp Builders.Bitwise Builders.Index
